@@ -338,6 +338,7 @@ static void nbody_derivatives(struct reb_ode* ode, double* const yDot, const dou
 
 
 void reb_integrator_bs_part1(struct reb_simulation* r){
+    r->gravity_ignore_terms = 0; // BS needs the full force. Another integrator might have set this flag previously.
     if (r->calculate_megno){
         reb_simulation_error(r, "The BS integrator does currently not support MEGNO.");
     }
